@@ -13,6 +13,7 @@ import SpVerif.Ops.Tlv
 import SpVerif.Ops.Parser
 import SpVerif.Ops.Uslp
 import SpVerif.Ops.Verificator
+import SpVerif.Ops.Robust
 /-!
 # Line-protocol driver: one JSON object per input line (`{"op": …, …}`), one JSON result per output line.
 `{"ok": …}` / `{"err": "<category>"}` are model results; `{"bad": "<msg>"}` is a protocol error.
@@ -35,6 +36,7 @@ def allOps : List (String × Handler) := []
   ++ Ops.Parser.ops
   ++ Ops.Uslp.ops
   ++ Ops.Verificator.ops
+  ++ Ops.Robust.ops
 
 def table : Std.HashMap String Handler := Std.HashMap.ofList allOps
 
